@@ -160,6 +160,53 @@ def rule_r4(chk, facts):
         raise AnalysisBroken('only %d distance windows found' % n)
 
 
+def page_reference_rule(chk, facts, rule):
+    """4004/4040: JCN and ISZ replace the low 8 bits of the program counter
+    *after* it has been advanced past the two-word instruction.  Assembler and
+    disassembler must both take the page from address + instruction length."""
+    n = 0
+    f_asm = facts.unit('code4004.c')
+    for f in f_asm.funcs.values():
+        if f.file != 'code4004.c':
+            continue
+        lens = {const_val(m[3]) for b, i, ln, m in f.nodes()
+                if is_assign(m) and m[1] == '=' and strip(m[2]) == ('g', 'CodeLen') and const_val(m[3])}
+        for b, i, ln, m in f.nodes():
+            if m[0] == 'b' and m[1] == '+' and const_val(m[3]) is not None and nocast(m[2])[0] == 'call' and \
+                    callee_name(nocast(m[2])) == 'EProgCounter':
+                k = const_val(m[3])
+                n += 1
+                ok = len(lens) == 1 and k in lens
+                chk.ob(rule, 'code4004.c:%s:page-of-PC+%d' % (f.name, k), ok, f.loc(ln),
+                       'page taken from the address behind the %d-word instruction' % k if ok else
+                       'the same-page test uses the page of PC+%d, the instruction is %s words long: at the last words of a '
+                       'ROM page a reachable target is rejected and an unreachable one is encoded truncated' %
+                       (k, '/'.join(str(x) for x in sorted(lens)) or '?'))
+    d = facts.func('deco4004.c', 'Disassemble_4004') if 'Disassemble_4004' in facts.unit('deco4004.c').funcs else None
+    if d is None:
+        for f in facts.unit('deco4004.c').funcs.values():
+            if f.file == 'deco4004.c' and any(m[0] == 'b' and m[1] == '&' and const_val(m[3]) == 0x0f00 for b, i, ln, m in f.nodes()):
+                d = f
+    if d is None:
+        raise AnalysisBroken('deco4004.c: page computation not found')
+    for b, i, ln, m in d.nodes():
+        if m[0] == 'b' and m[1] == '&' and const_val(m[3]) == 0x0f00:
+            inner = nocast(m[2])
+            if inner[0] == 'b' and inner[1] == '+' and const_val(inner[3]) is not None:
+                k = const_val(inner[3])
+                # instruction length stored in the same block
+                ls = {const_val(x[3]) for ln2, ex in d.blocks[b]['elems'] for x in walk_own(ex)
+                      if is_assign(x) and x[1] == '=' and strip(x[2])[0] == 'm' and strip(x[2])[2].endswith('.CodeLen') and const_val(x[3])}
+                n += 1
+                ok = ls == {k}
+                chk.ob(rule, 'deco4004.c:%s:page-of-Address+%d@%d' % (d.name, k, n), ok, d.loc(ln),
+                       'page taken from the address behind the instruction' if ok else
+                       'the target page is taken from Address+%d, the instruction length is %s' % (k, sorted(ls)))
+    if n < 4:
+        raise AnalysisBroken('only %d page references found for the 4004' % n)
+    return n
+
+
 def run(chk, facts, info):
     rule_r1(chk, facts)
     c15.rule_fold(chk, facts, rule='C14-R2', units=None)
@@ -169,6 +216,9 @@ def run(chk, facts, info):
              '(AdrCnt, CodeLen, BAsmCode, ...) only if the module itself or a core module assigns it: an encoding must '
              'not be built from what another target\'s generator left behind', min_instances=40)
     foreign_scratch_rule(chk, facts.program('asl'), 'C14-R5', only=set(FILES), min_instances=900)
+    chk.rule('C14-R6', '4004/4040 JCN and ISZ: the page against which the target is checked (assembler) and from which '
+             'the target is rebuilt (disassembler) is the page of the address behind the two-word instruction', min_instances=4)
+    page_reference_rule(chk, facts, 'C14-R6')
     chk.note('Decided: table-driven opcode constants against the ISA references, sign-extension thresholds, mask vs '
              'range-check agreement, distance windows. Not decided: fields composed in handler code, operand encodings '
              'per addressing mode.')
